@@ -463,7 +463,9 @@ class CellConversion:
             else:
                 new_cell.fillid = universe
             if new_cell.filltr:
-                new_filltr = compose_transform(trnsf, new_cell.filltr)
+                # the filling universe is first moved by the fill
+                # transformation, then translated to the lattice element
+                new_filltr = compose_transform(new_cell.filltr, trnsf)
             else:
                 new_filltr = tuple(trnsf)
             # see self.pot_fill(): if TRCL and FILL with a transformation are
